@@ -201,3 +201,96 @@ def gen_defs(rng, k, max_inputs=5):
     for r in rets:
         defs.append([r, gen_bexp(rng, names, rng.randint(1, 4))])
     return dict(name=f"defs_{k}", inputs=inputs, defs=defs, rets=rets)
+
+
+# Shapes for the compiler checks (C02/C03/C06) that the random generators hit rarely: return bits that share a
+# qubit or are constants (fewer qubits than inputs + return bits), a returned variable that another statement
+# reads, user names that merely start with `_ret`, a parameter that is re-bound and the same expression text
+# evaluated before and after, wide `or`s with compound operands below a binary `or`, conditional expressions
+# (expanded after CSE).  Every program is compiled with both optimizer profiles.
+COMPILER_SHAPE_PROGRAMS = [
+    "def sh_0(a: Qint[4]) -> Qint[8]:\n\treturn a + 3",
+    "def sh_1() -> Qint[4]:\n\tc, d = 1, 2\n\treturn c + d",
+    "def sh_2(a: Qint[3], b: bool) -> Qint[8]:\n\treturn 10 - a",
+    "def sh_3(a: bool, b: bool, c: bool, d: bool) -> Tuple[bool, bool, bool, bool]:\n\tt = a and b\n\treturn (t, t, c ^ d, t)",
+    "def sh_4(a: bool, b: bool) -> Tuple[bool, bool, bool]:\n\treturn (a, a, b)",
+    "def sh_5(a: bool, b: bool) -> Tuple[bool, bool]:\n\treturn (False, a and b)",
+    "def sh_6(a: bool) -> bool:\n\treturn True",
+    "def sh_7(a: Qint[2]) -> Qint[4]:\n\treturn a",
+    "def sh_8(a: bool, b: bool, c: bool) -> Tuple[bool, bool]:\n\tt = (a and b) or c\n\treturn (t, not t)",
+    "def sh_9(a: bool, b: bool, c: bool) -> bool:\n\tp = a and b\n\tq = p or c\n\treturn p",
+    "def sh_10(a: bool, b: bool, c: bool) -> bool:\n\tp = a and b\n\tq = p or c\n\treturn q and p",
+    "def sh_11(a: bool, b: bool, c: bool) -> bool:\n\t_ret_lo = (a and b) or (not c)\n\treturn _ret_lo and a",
+    "def sh_12(a: bool, b: bool, c: bool) -> Tuple[bool, bool]:\n\t_retx = (a or b) and c\n\t_ret_1 = _retx ^ a\n\treturn (_retx or b, _ret_1 and c)",
+    "def sh_13(a: bool, b: bool, c: bool) -> bool:\n\tx = (a or b) and c\n\ta = not a\n\ty = (a or b) and c\n\treturn x ^ y",
+    "def sh_14(a: bool, b: bool, c: bool) -> Tuple[bool, bool]:\n\tx = (a and b) or c\n\tb = a ^ b\n\ty = (a and b) or c\n\tb = not b\n\tz = (a and b) or c\n\treturn (x ^ y, y ^ z)",
+    "def sh_15(a: bool, b: bool, c: bool) -> Tuple[bool, bool]:\n\treturn (a or b or c, not a and not b and not c)",
+    "def sh_16(a: bool, b: bool, c: bool, d: bool) -> bool:\n\treturn (a and not (c or d)) or ((c or d) and not b)",
+    "def sh_17(a: bool, b: bool, c: bool, d: bool, e: bool) -> bool:\n\treturn (((a and b) or (b and c) or (c and d) or (d and a)) and e) or (a and c)",
+    "def sh_18(a: bool, b: bool, c: bool, d: bool, e: bool) -> bool:\n\treturn ((((a and b) or c or d or (not e)) and (b ^ e)) or (c and e))",
+    "def sh_19(a: bool, b: bool, c: bool, d: bool) -> Tuple[bool, bool]:\n\tt = (c if a else b) and d\n\treturn (t or b, (c if a else t) != d)",
+    "def sh_20(a: bool, b: bool, c: bool, d: bool) -> Tuple[bool, bool]:\n\tt = (c if a else b) or d\n\tu = (b if t else c) and a\n\treturn ((c if a else b) ^ u, t and (b if t else c))",
+    "def sh_21(a: Qint[2], b: Qint[2]) -> Tuple[Qint[2], Qint[2], bool]:\n\tc = a + b\n\ta = c ^ b\n\td = a + b\n\treturn (c, d, c == d)",
+    "def sh_22(a: bool, b: bool, c: bool) -> Tuple[bool, bool, bool]:\n\tt = a and b\n\tu = t\n\tv = u or c\n\treturn (u, t, v)",
+    "def sh_23(a: bool, b: bool) -> Tuple[bool, bool]:\n\tt = a ^ b\n\tt = t and a\n\tt = t or b\n\treturn (t, a)",
+]
+
+
+def gen_defs_rebind(rng, k, max_inputs=4):
+    """a definition list with what `gen_defs` leaves out: names bound twice, an INPUT that is re-bound, the same
+    expression (structurally) before and after a re-binding and in several definitions (cache hits), names that
+    merely start with `_ret`, a return bit that is a bare name / a constant / equal to another return bit,
+    definitions nobody reads, return bits defined before the last intermediate"""
+    n = rng.randint(2, max_inputs)
+    inputs = [f"v{i}" for i in range(n)]
+    names = list(inputs)
+    pool = [gen_bexp(rng, inputs, rng.randint(1, 2)) for _ in range(rng.randint(1, 3))]
+
+    def expr(depth):
+        r = rng.random()
+        if r < 0.35:
+            return rng.choice(pool)
+        if r < 0.5:
+            k_ = rng.choice(["and", "or", "xor"])
+            return [k_, rng.choice(pool), gen_bexp(rng, names, max(depth - 1, 0))]
+        if r < 0.6:
+            return ["not", rng.choice(pool)]
+        e = gen_bexp(rng, names, depth)
+        if e[0] != "sym" and rng.random() < 0.5:
+            pool.append(e)
+        return e
+
+    nret = rng.choice([1, 1, 2, 3])
+    rets = ["_ret"] if nret == 1 else [f"_ret.{i}" for i in range(nret)]
+    pending = list(rets)
+    defs = []
+    steps = rng.randint(2, 6)
+    for i in range(steps):
+        r = rng.random()
+        if r < 0.2:
+            nm = rng.choice(inputs)  # an input is re-bound
+        elif r < 0.4 and [x for x in names if x not in inputs]:
+            nm = rng.choice([x for x in names if x not in inputs])  # bound again
+        elif r < 0.5:
+            nm = rng.choice(["_ret_lo", "_retx", "_ret_1"])
+        elif r < 0.6:
+            nm = f"__m{i}"
+        else:
+            nm = f"m{i}"
+        defs.append([nm, expr(rng.randint(1, 3))])
+        if nm not in names:
+            names.append(nm)
+        if pending and rng.random() < 0.3:
+            defs.append([pending.pop(0), ret_expr(rng, names, expr)])
+    for r_ in pending:
+        defs.append([r_, ret_expr(rng, names, expr)])
+    return dict(name=f"defsr_{k}", inputs=inputs, defs=defs, rets=rets)
+
+
+def ret_expr(rng, names, expr):
+    r = rng.random()
+    if r < 0.2:
+        return ["sym", rng.choice(names)]
+    if r < 0.25:
+        return ["tt"] if rng.random() < 0.5 else ["ff"]
+    return expr(rng.randint(1, 3))
